@@ -15,6 +15,7 @@ import shutil
 import subprocess
 import sys
 
+PROBE = None
 VERIF = os.path.dirname(os.path.dirname(os.path.abspath(__file__)))
 
 
@@ -54,6 +55,18 @@ def main():
     try:
         if sys.argv[1] == "--selftest":
             return selftest(repo, sys.argv[2:])
+        if sys.argv[1] == "--probe":
+            # --probe [checks=C01,C02] <filters...> [-jN]: run the named checks (default: the seed's own
+            # property) on every matching seed and print the rules that fire
+            global PROBE
+            PROBE = []
+            rest = []
+            for a in sys.argv[2:]:
+                if a.startswith("checks="):
+                    PROBE = a[7:].split(",")
+                else:
+                    rest.append(a)
+            return selftest(repo, rest)
         patch = sys.argv[1]
         props = sys.argv[2:]
         make_copy(repo)
@@ -96,7 +109,7 @@ def _one(args):
     """worker: own scratch repo copy and own extraction cache (seeded with the
     dependency build of the main cache so only `domain` itself is rebuilt)."""
     slot, name, patch, m = args
-    base = os.path.join(os.environ.get("VERIF_SCRATCH_BASE", "/var/tmp"), "verif-selftest-%d" % slot)
+    base = os.path.join(os.environ.get("VERIF_SCRATCH_BASE", "/var/tmp"), "verif-selftest-%d-%d" % (os.getpid(), slot))
     repo = os.path.join(base, "repo")
     cache = os.path.join(base, "cache")
     os.makedirs(cache, exist_ok=True)
@@ -109,6 +122,14 @@ def _one(args):
     bad = 0
     if rc != 0:
         return name, 1, ["%-44s PATCH-FAILED" % name]
+    if m.get("_probe"):
+        for chk in m["_probe"]:
+            rc, out = run_check(repo, chk, {"VERIF_CACHE": cache})
+            rules = sorted({l.split("rule=")[1].split(" ")[0] for l in out.splitlines() if "rule=" in l})
+            lines.append("%-44s %-4s exit=%d %s" % (name, chk, rc, " ".join(rules)))
+            if rc not in (0, 1):
+                lines += ["      " + l[:300] for l in out.splitlines()[-6:]]
+        return name, 0, lines
     for exp in m.get("expect", []):
         rc, out = run_check(repo, exp["check"], {"VERIF_CACHE": cache})
         want_rule = exp.get("rule")
@@ -120,7 +141,8 @@ def _one(args):
                                               "ok" if ok else ("ALARM" if exp.get("quiet") else "MISSED") + " (exit %d)" % rc))
         if not ok:
             bad += 1
-            for l in [l for l in out.splitlines() if "rule=" in l or "CHECK-ERROR" in l or l.startswith("VIOLATION")][:6]:
+            diag = [l for l in out.splitlines() if "rule=" in l or "CHECK-ERROR" in l or l.startswith("VIOLATION")][:6]
+            for l in diag or out.splitlines()[-8:]:
                 lines.append("      " + l[:400])
     return name, bad, lines
 
@@ -135,6 +157,8 @@ def selftest(repo, only):
         if a.startswith("-j"):
             jobs = int(a[2:])
     specs = _specs(args)
+    if PROBE is not None:
+        specs = [(n, pth, dict(m, _probe=(PROBE or [m.get("property")]))) for n, pth, m in specs]
     bad = 0
     q = multiprocessing.Manager().Queue()
     for i in range(jobs):
@@ -155,7 +179,7 @@ def selftest(repo, only):
                 print("\n".join(lines), flush=True)
     finally:
         for i in range(jobs):
-            shutil.rmtree(os.path.join(os.environ.get("VERIF_SCRATCH_BASE", "/var/tmp"), "verif-selftest-%d" % i), ignore_errors=True)
+            shutil.rmtree(os.path.join(os.environ.get("VERIF_SCRATCH_BASE", "/var/tmp"), "verif-selftest-%d-%d" % (os.getpid(), i)), ignore_errors=True)
     print("selftest: %d spec(s), %d problem(s)" % (len(specs), bad))
     return 1 if bad else 0
 
